@@ -7,7 +7,7 @@ LEVEL = 'exploration'
 RULE = ('n -> standard written-out form from an independent grammar per language. en-us: cardinals with/without "and", hyphenated/spaced tens, '
         'alone and in a carrier sentence, and ordinals; exhaustive 0..9999 (thorough) / 0..1200 (quick), every 10^k and 10^k+-1 up to 10^15, seeded '
         'sampling above. es-es, fr-fr, pt-br, de-de, it-it, nl-nl: dictionary form, exhaustive 0..2000 (quick 0..300) + round numbers + seeded up to '
-        '999 999; zh-cn, ja-jp: up to 10^12. non-trivial = the model returned an entity; distinct = distinct (culture, model, phrase).')
+        '999 999 (de-de and nl-nl also ordinals); zh-cn, ja-jp: up to 10^12. non-trivial = the model returned an entity; distinct = distinct (culture, model, phrase).')
 EXHAUSTIVE = False
 JOB_TIMEOUT = 2400
 CARRIER = {'en-us': 'I have {} apples'}
@@ -90,6 +90,8 @@ def refine(mech, cu, mt, n, q, st, en, r):
             return 'bare-hundred-after-thousands-dropped'
     if cu == 'fr-fr' and one is not None and one.start == st and one.end < en and q[one.end + 1:en + 1].strip() == 'cents':
         return 'fr-plural-cents-cut-off'
+    if cu == 'de-de' and mt == 'OrdinalModel' and not r and (n % 100) // 10 == 4:
+        return 'de-ordinal-in-the-forties-not-recognised'
     if cu == 'it-it' and not r and q[st:en + 1].endswith('tré'):
         return 'it-final-accented-tre-not-recognised'
     if cu == 'ja-jp':
@@ -127,6 +129,10 @@ def run(job, ctx):
         if cu == 'en-us' and n > 0:
             om = lib.model('NumberRecognizer', 'OrdinalModel', cu)
             for variant, s in numerals.english_ordinal(n):
+                check(om, cu, 'OrdinalModel', s, 0, len(s) - 1, n, 'ordinal,' + variant, ctx)
+        if cu in numerals.ORDINALS and 0 < n < 10 ** 6:
+            om = lib.model('NumberRecognizer', 'OrdinalModel', cu)
+            for variant, s in numerals.ORDINALS[cu](n):
                 check(om, cu, 'OrdinalModel', s, 0, len(s) - 1, n, 'ordinal,' + variant, ctx)
 
 
